@@ -385,8 +385,16 @@ def run(prog, tier, extra=None):
         raise LookupError("remove_block_transactions / add_block_success not found")
     sweep_blocks = set()
     chr_ = Chaser(rbt)
-    def asks_ledger(body):
-        return any((call_name(ct) or "").endswith("Transaction::validate_against_utxoset") or (call_name(ct) or "").endswith("Transaction::validate") for _, ct in body.calls())
+    def asks_ledger(body, depth=0):
+        for _, ct in body.calls():
+            n_ = call_name(ct) or ""
+            if n_.endswith("Transaction::validate_against_utxoset") or n_.endswith("Transaction::validate"):
+                return True
+            # the predicate may live in a private bool helper (`self.still_valid_for_next_block(tx, ..)`)
+            hb_ = prog.bodies.get(ct.get("res") or ct.get("callee") or "")
+            if depth < 1 and hb_ is not None and not hb_.is_promoted and hb_.path.startswith("saito_") and hb_.ty(0)["s"] == "bool" and asks_ledger(hb_, depth + 1):
+                return True
+        return False
     removes_pooled = any(x[3] in ("remove", "replace") for x in tx_sites.get(rbt.path, (rbt, []))[1])
     for bb, t in rbt.calls():
         last = (call_name(t) or "").rsplit("::", 1)[-1]
@@ -503,7 +511,16 @@ def run(prog, tier, extra=None):
                         wtest_roots.add(_r10(b_.path))
     sweep_bodies = [rbt] + [b_ for p_, b_ in prog.bodies.items() if p_.startswith(rbt.path + "::{closure") and not b_.is_promoted]
     from ._helpers import root as _r10
-    has_window = any(_r10(t_.get("res") or t_.get("callee") or "") in wtest_roots for b_ in sweep_bodies for _, t_ in b_.calls())
+    def _calls_window(b_, depth=0):
+        for _, t_ in b_.calls():
+            tgt_ = t_.get("res") or t_.get("callee") or ""
+            if _r10(tgt_) in wtest_roots:
+                return True
+            hb_ = prog.bodies.get(tgt_)
+            if depth < 1 and hb_ is not None and not hb_.is_promoted and tgt_.startswith("saito_") and hb_.ty(0)["s"] == "bool" and _calls_window(hb_, depth + 1):
+                return True
+        return False
+    has_window = any(_calls_window(b_) for b_ in sweep_bodies)
     if not wtest_roots:
         res.not_decided.append("C14.sweep-window: no retention-window test exists in the consensus code (see C01.input-window)")
     elif not has_window:
